@@ -66,4 +66,17 @@ def Vector_check_dimensions (truth : Term → Bool) (self_ndim : Int) : Out :=
 def util_length (truth : Term → Bool) (len_value : Int) : Out :=
   Out.ret [] (Term.int (if truth (Term.app "is_scalar" [(Term.sym "value")]) then (1 : Int) else len_value))
 
+/-- dataiter/vector.py: Vector.length (sha256 of the function source: f9a8d1600615e72a) -/
+def Vector_length (truth : Term → Bool) : Out :=
+  let eff0 : Term := (Term.app "._check_dimensions" [(Term.sym "self")]);
+  Out.ret [eff0] (Term.app ".size" [(Term.sym "self")])
+
+/-- dataiter/data_frame.py: DataFrame.nrow (sha256 of the function source: be27b9810d333211) -/
+def DataFrame_nrow (truth : Term → Bool) : Out :=
+  if (!truth (Term.sym "self")) then
+    Out.ret [] (Term.int (0 : Int))
+  else
+    let eff0 : Term := (Term.app "._check_dimensions" [(Term.sym "self")]);
+    Out.ret [eff0] (Term.app ".nrow" [(Term.app "getitem" [(Term.sym "self"), (Term.app "next" [(Term.app "iter" [(Term.sym "self")])])])])
+
 end DI.Gen
